@@ -1,5 +1,6 @@
 mod drv_bool;
 mod drv_circuit;
+mod drv_dddmp;
 mod drv_hashtbl;
 mod drv_mv;
 mod drv_names;
@@ -63,6 +64,7 @@ fn main() {
             "zbdd" => drv_names::run::<ZBDDFunction>(&args),
             k => panic!("harness: unknown kind {k}"),
         },
+        d if d.starts_with("dddmp") => drv_dddmp::run(d, &args),
         d if d.starts_with("hashtbl") => drv_hashtbl::run(d, &args),
         d if d.starts_with("circuit") || d.starts_with("parse") => drv_circuit::run(d, &args),
         d if d.starts_with("num") || d.starts_with("natural") => drv_num::run(d, &args),
